@@ -20,8 +20,8 @@ RULE = (
     "type limits so that group totals/products exceed the input width but stay < 2**53; sum/nansum/prod/nanprod/mean/"
     "nanmean and var/std; oracle = exact Python-int totals (mean, var: float reference rtol 1e-12); eager + chunked. "
     "(var) float64 data |x|<=5 not on a dyadic grid, n<=60; var/std/nanvar/nanstd ddof in {0,1}; oracle: |eager-chunked| "
-    "<= 1e-9*|eager|+1e-12 on the variance (std results are squared first: the textbook formula's absolute error "
-    "n*eps*max|x|^2 <= 4e-13 is what 'floating-point accuracy for well-conditioned data' allows) and the same vs numpy.var. Non-trivial = (inf) a group whose true extreme is infinite; (int) a "
+    "<= 1e-9*|eager|+1e-11 on the variance (std results are squared first: the textbook formula's absolute error "
+    "a few n*eps*max|x|^2 ~ 1e-12 is what 'floating-point accuracy for well-conditioned data' allows) and the same vs numpy.var. Non-trivial = (inf) a group whose true extreme is infinite; (int) a "
     "group total beyond the input dtype's range; (var) >=2 blocks."
 )
 BUDGET = {"quick": 300, "thorough": 4000}
@@ -188,7 +188,7 @@ def execute(case) -> Outcome:
                 if "std" in func:  # compare variances: |d std| can legitimately be sqrt(|d var|)
                     g64, w64 = g64 * g64, w64 * w64
                 scale = 1.0 if kind == "var" else float(max(abs(w64), 1.0))
-                ok = bool(close(np.asarray(g64), np.asarray(w64), 1e-9, 1e-12 * scale))
+                ok = bool(close(np.asarray(g64), np.asarray(w64), 1e-9, 1e-11 * scale))
             if not ok:
                 sym = "inf-lost" if kind == "inf" and np.isinf(w) else ("wrong" if kind != "int" else "int-width")
                 out.add(
@@ -222,6 +222,6 @@ def execute(case) -> Outcome:
         cres = check(c, pl)
         if kind == "var" and eres is not None and cres is not None:
             a, b = (cres * cres, eres * eres) if "std" in func else (cres, eres)
-            if not bool(np.all(close(a, b, 1e-9, 1e-12))):
+            if not bool(np.all(close(a, b, 1e-9, 1e-11))):
                 out.add(("var", "eager-vs-chunked"), f"[{pl}] func={func}: chunked {cres.tolist()} vs eager {eres.tolist()}")
     return out
